@@ -33,13 +33,78 @@ def run(ctx):
         classes[cl] = classes.get(cl, 0) + 1
         tag = 'beyond-end' if (' beyond ' in f' {cl} ' and cl.startswith('basic nth')) else e
         ctx.fail('oracle', c, impl=s, model=None, expect=tag, note=f'C16 violated ({cl}): query {q} expected {e} got {s}')
+    # paths: a list applied to / accessed with a symbol list follows the keys and indexes one after the other, each step in
+    # the value reached by the previous one (Apply); an index outside that value, a missing key, or a value that cannot be
+    # looked into ends with unit — never an error. Independent oracle on the terms + the value-level model.
+    import opsuite
+    from gen import opgen
+    def parse_term(t):
+        toks = t.replace('(', ' ( ').replace(')', ' ) ').split()
+        def rd(i):
+            if toks[i] == '(':
+                out = []; i += 1
+                while toks[i] != ')':
+                    x, i = rd(i); out.append(x)
+                return out, i + 1
+            return toks[i], i + 1
+        return rd(0)[0]
+    def show(x):
+        return x if isinstance(x, str) else '(' + ' '.join(show(y) for y in x) + ')'
+    def step(cur, part):
+        # cur, part: parsed terms; returns next value or None (= nothing there)
+        if not isinstance(cur, list) or not cur or cur[0] != 'l':
+            raise KeyError('only steps into lists are decided by this oracle; other values are left to the model comparison')
+        if part[0] == 's':
+            items = cur[1:]
+            hit = None
+            for it in items:
+                if isinstance(it, list) and it and it[0] == 'p' and it[1] == ['s', part[1]]:
+                    hit = it[2]
+            return hit
+        if part[0] == 'i':
+            n = int(part[1])
+            if cur[0] == 'l':
+                return cur[1 + n] if 0 <= n < len(cur) - 1 else None
+            return None
+        return None
+    def path_value(lst, path):
+        cur = parse_term(lst)
+        for part in parse_term(path)[1:]:
+            cur = step(cur, part)
+            if cur is None:
+                return 'U'
+        return show(cur)
+    pcases = []
+    for lst in opgen.PATH_LISTS:
+        for path in opgen.PATH_PATHS:
+            for st in opgen.STORES:
+                if st == 'simple' and '(i ' in path:
+                    continue
+                pcases.append(['OP', 'pa%d' % len(pcases), st, 'Apply', 'decline', lst, path])
+    prow = opsuite.run(pcases, 'c16path', drv_ok)
+    npath = 0
+    for c, ri, rm, skip in prow:
+        pi = opsuite.parse_result(ri)
+        ctx.distinct.add(('path', c[2], c[5], c[6]))
+        try:
+            want = path_value(c[5], c[6])
+        except KeyError:
+            want = None
+        npath += 1
+        if pi['kind'] != 'ok':
+            ctx.fail('oracle', c, impl=ri, model=rm, expect=f'ok {want}', note='a symbol-list path applied to a list must not fail: a step that finds nothing ends with unit')
+        elif want is not None and pi['top'] != want:
+            ctx.fail('oracle', c, impl=ri, model=rm, expect=f'ok {want}', note=f'path look-up {c[6]} in {c[5]} gives {pi["top"]}, each step must look into the value reached by the previous one: expected {want}')
+        elif rm is not None and not skip and ri != rm:
+            ctx.fail('corr', c, impl=ri, model=rm, expect=rm, note='implementation differs from the Lean model (OP.Apply, path)')
+    ctx.evaluations += len(pcases)
     for c in cases:
         ctx.distinct.add((c[2], c[3]))
     ctx.oblige('suite SIMPLE.list + BASIC.list + runtime access (implementation = Lean models)', 'suite', not dis and drv_ok, f'{len(dis)} disagreement(s)')
     ctx.rule = ('LIST cases: all lists up to length 4 (quick) / 5 (thorough) over item kinds {number, text, symbol, pair keyed by symbol, pair keyed by non-symbol, nested list} under three key schemes (incl. all keys congruent modulo n, 0 and u64::MAX), '
                 'random lists of 5-40 items with adversarial symbols, lists containing unit/true/false (addresses 0/1/2 on Simple), concatenations of such lists; each queried at data level (len, nth for -1..n+1, symbol look-up of every present and several absent keys, iteration) and at runtime level (access / apply by number and symbol) on both stores; '
-                'answers checked against an oracle computed from the item list alone and against the Lean store models; distinct = distinct (store, list).')
-    ctx.suites = {'LIST': len(cases), 'oracle_answers_checked': nq, 'oracle_failure_classes': classes}
+                'symbol-list paths into nested keyed lists (keys present / missing, indexes in and out of range of the value reached, steps into values that cannot be looked into); answers checked against an oracle computed from the item list alone and against the Lean store models; distinct = distinct (store, list).')
+    ctx.suites = {'LIST': len(cases), 'oracle_answers_checked': nq, 'oracle_failure_classes': classes, 'OP.Apply paths': npath}
     for c in cases[:: max(1, len(cases) // 6)][:6]:
         ctx.sample({'case': c[2:], 'impl': (impl.get(c[1]) or '')[:240]}, cap=80)
     ctx.trusted += ['store-view hypotheses ReadableS / ReadableB of the look-up theorems; Simple address allocation incl. interning is modelled in the driver only', 'duplicate keys are outside the property']
